@@ -152,6 +152,14 @@ Answer(s, rf) ==
        /\ Out(d.w)
   /\ Tick /\ UNCHANGED <<att, cs, via>>
 
+\* while the attacher's answer for a stream is outstanding Tor reports progress of that - still unattached - stream
+\* (CONTROLLER_WAIT, which newer Tors send right after NEW; REMAP for an address it had cached): nothing is decided by
+\* that; the answer, when it comes, still is the stream's one decision
+StreamProgress(s, k) ==
+  /\ UNCHANGED <<told, st>>
+  /\ st[s].seen /\ st[s].ans # "-" /\ st[s].end = "" /\ k \in {"CONTROLLER_WAIT", "REMAP"}
+  /\ Out(<<>>) /\ Tick /\ UNCHANGED <<att, cs, via>>
+
 \* Tor reports a stream we know FAILED (it is forgotten), and afterwards CLOSED (for the view: an unknown
 \* stream whose first event is terminal): neither is a new attachable stream, no decision is made
 StreamFailed(s) ==
@@ -237,7 +245,7 @@ Next ==
   /\ steps < MaxSteps
   /\ \/ \E s \in Streams, kind \in {"normal", "exit", "resolve"}, p \in Ports, a \in Answers, mode \in Modes, rf \in BOOLEAN :
           NewStream(s, kind, p, a, mode, rf) /\ (att # "A" => a = "none" /\ mode = "imm")
-     \/ \E s \in Streams : (\E rf \in BOOLEAN : Answer(s, rf)) \/ StreamFailed(s) \/ LateClosed(s)
+     \/ \E s \in Streams : (\E rf \in BOOLEAN : Answer(s, rf)) \/ StreamFailed(s) \/ LateClosed(s) \/ StreamProgress(s, "CONTROLLER_WAIT") \/ StreamProgress(s, "REMAP")
      \/ \E a \in {"A", "B", "P", "none"}, late \in BOOLEAN : SetAttacher(a, late)
      \/ \E k \in Conns, c \in Circs, late \in BOOLEAN : ViaConnect(k, c, late)
      \/ ConfAck
